@@ -134,7 +134,7 @@ def reply_scripts(ctx):
         for mi, mode in enumerate(('sync', 'async')):
             if ctx.quick and (i + mi) % 2:
                 continue
-            reply_len = len(syncop.render('pull' if row['op'] == 'pullcb' else row['op'], row['script']))
+            reply_len = len(syncop.render('pull' if row['op'] in ('pullcb', 'push') else row['op'], row['script']))
             cuts = None if (i // 2) % 3 == 0 or reply_len < 2 else sorted({1 + (i * 7) % (reply_len - 1), 1 + (i * 13 + 5) % (reply_len - 1)})
             # a script that starts with the device closing the stream: every other time the close comes INSTEAD of the OKAY for the request
             obs = syncop.run_row(mode, row, cuts, close_unacked=bool(row['script'] and row['script'][0] == 'CLSE' and (i // 2) % 2), stall=('raise', 'empty')[(i // 3) % 2])
